@@ -140,7 +140,11 @@ func (root *Root) resolve(
 	t Type,
 	depth int) (result interface{}, ea []error) {
 
-	if depth <= 0 || IsNil(obj) {
+	if IsNil(obj) {
+		// A nil pointer in a typed slice is still a null.
+		return nil, nil
+	}
+	if depth <= 0 {
 		// If not intended then generate an error later when trying to
 		// generate output.
 		return obj, nil
